@@ -30,9 +30,13 @@ type specSer interface {
 type plainSer interface {
 	Serialize(w *codec.EncodingWriter) error
 }
-type specBL interface{ ByteLength(spec *common.Spec) uint64 }
+type specBL interface {
+	ByteLength(spec *common.Spec) uint64
+}
 type plainBL interface{ ByteLength() uint64 }
-type specFL interface{ FixedLength(spec *common.Spec) uint64 }
+type specFL interface {
+	FixedLength(spec *common.Spec) uint64
+}
 type plainFL interface{ FixedLength() uint64 }
 type specHTR interface {
 	HashTreeRoot(spec *common.Spec, h tree.HashFn) common.Root
